@@ -66,7 +66,7 @@ class Gen:
         self.keykind = {}
 
     def key(self, kind):
-        if self.dupkeys and self.keykind and self.rng.random() < 0.15:
+        if kind != "s" and self.dupkeys and self.keykind and self.rng.random() < 0.15:   # signal keys are never shared (handle safety)
             ks = [k for k, v in self.keykind.items() if v == kind]
             if ks:
                 return self.rng.choice(ks)
